@@ -78,6 +78,15 @@ def dispatch (fields : List String) : Result :=
   match fields with
   | ["decode", hex, impl] => cmdDecode hex impl
   | ["encode", msg, impl] => cmdEncode msg impl
+  | ["decode-deep", depth, _stack, hex, impl] =>
+    match bytesOfHex hex with
+    | none => bad "hex"
+    | some buf =>
+      let model := match decodeMessage buf with
+        | .ok m => s!"ok answers={m.answers.length}"
+        | .error e => "err " ++ showDErr e
+      { model, oracle := if impl == "panic" then "fail:C03:panic-or-stack-overflow" else if impl.startsWith "ok" == (Ref.message buf).isSome then "ok" else "fail:C03:deep-chain-misjudged",
+        tags := "deep" ++ depth }
   | ["label.tryFrom", hex, _] =>
     match bytesOfHex hex with
     | none => bad "hex"
